@@ -19,6 +19,8 @@ import E2P.Model.Branch
 import E2P.Spec.BranchSpec
 import E2P.Model.Agg
 import E2P.Spec.AggSpec
+import E2P.Model.Exec
+import E2P.Spec.ExecSpec
 import E2P.Generated.RuntimeConsts
 open E2P
 
@@ -347,6 +349,74 @@ def handleAgg (args : List String) : String :=
       | _, _ => "bad-op"
   | _ => "bad-op"
 
+/-! executor histories: `ex <fuel> <nsheets> {w h} <ncells> {code xexpr} <nops> {op}` -/
+def takeNat : List String → Option (Nat × List String)
+  | t :: r => t.toNat?.map fun n => (n, r)
+  | [] => none
+
+def parseMany {α} (p : List String → Option (α × List String)) : Nat → List String → Option (List α × List String)
+  | 0, r => some ([], r)
+  | k + 1, r => do
+    let (x, r) ← p r
+    let (xs, r) ← parseMany p k r
+    some (x :: xs, r)
+
+def parseUid (r : List String) : Option (Uid × List String) := do
+  let (s, r) ← takeNat r
+  let (c, r) ← takeNat r
+  let (w, r) ← takeNat r
+  some (⟨s, c, w⟩, r)
+
+def parseOp : List String → Option (Op × List String)
+  | "set" :: r => do
+    let (n, r) ← takeNat r
+    let (b, r) ← parseMany (fun r => do
+      let (u, r) ← parseUid r
+      let (v, r) ← decVal r
+      some ((u, v), r)) n r
+    some (.set b, r)
+  | "get" :: r => do let (u, r) ← parseUid r; some (.get u, r)
+  | "gets" :: r => do
+    let (n, r) ← takeNat r
+    let (us, r) ← parseMany parseUid n r
+    some (.gets us, r)
+  | "sheet" :: r => do let (s, r) ← takeNat r; some (.sheet s, r)
+  | _ => none
+
+def firstErr (rs : List Res) : Option PyExc := rs.findSome? fun r => match r with | .error e => some e | .ok _ => none
+
+def encOut : Out → String
+  | .unit => "-"
+  | .val r => encRes r
+  | .vals rs => match firstErr rs with
+    | some e => "E" ++ e.name
+    | none => s!"V{rs.length} " ++ " ".intercalate (rs.map encRes)
+  | .grid g => match firstErr g.flatten with
+    | some e => "E" ++ e.name
+    | none => s!"G{g.length}x{(g.headD []).length} " ++ " ".intercalate (g.flatten.map encRes)
+
+def handleExec (args : List String) : String :=
+  match (do
+    let (fuel, r) ← takeNat args
+    let (ns, r) ← takeNat r
+    let (sizes, r) ← parseMany (fun r => do let (w, r) ← takeNat r; let (h, r) ← takeNat r; some ((w, h), r)) ns r
+    let (nc, r) ← takeNat r
+    let (cells, r) ← parseMany (fun r => do
+      let (code, r) ← takeNat r
+      let (e, r) ← parseX (r.length + 1) r
+      some ((code, e), r)) nc r
+    let (no, r) ← takeNat r
+    let (ops, r) ← parseMany parseOp no r
+    if r.isEmpty then some (fuel, sizes, cells, ops) else none) with
+  | none => "bad-op"
+  | some (fuel, sizes, cells, ops) =>
+    let wb : Workbook := cells
+    let model := (run wb fuel (ExecState.init sizes) ops).2
+    let spec := specRun (fun k => lookup k wb) fuel sizes [] ops
+    let valid := (allWriteUids ops).all fun u => u.sheet < sizes.length
+    let j := fun (os : List Out) => " ; ".intercalate (os.map encOut)
+    s!"{j model} | {if valid then j spec else "-"} | "
+
 def handle (line : String) : String :=
   match tokens line with
   | "echo" :: rest =>
@@ -361,6 +431,7 @@ def handle (line : String) : String :=
   | "br" :: rest => handleBranch rest
   | "pct" :: rest => handlePct rest
   | "ag" :: rest => handleAgg rest
+  | "ex" :: rest => handleExec rest
   | _ => "bad-op"
 
 partial def loop (h : IO.FS.Stream) (out : IO.FS.Stream) : IO Unit := do
